@@ -842,7 +842,9 @@ class FuncBitRotateLeft(ValueFunc):
     def execute(self, args, environment, pos):
         a = args.getInt("a").value
         n = args.getInt("n").value
-        return ValueInt((a << n) | (a >> (32 - n)))
+        n = n % 32
+        a = a & 0xFFFFFFFF
+        return ValueInt(((a << n) | (a >> (32 - n))) & 0xFFFFFFFF)
 
 
 class FuncBitRotateRight(ValueFunc):
@@ -866,7 +868,9 @@ class FuncBitRotateRight(ValueFunc):
     def execute(self, args, environment, pos):
         a = args.getInt("a").value
         n = args.getInt("n").value
-        return ValueInt((a >> n) | (a << (32 - n)))
+        n = n % 32
+        a = a & 0xFFFFFFFF
+        return ValueInt(((a >> n) | (a << (32 - n))) & 0xFFFFFFFF)
 
 
 class FuncBitShiftLeft(ValueFunc):
@@ -890,7 +894,7 @@ class FuncBitShiftLeft(ValueFunc):
     def execute(self, args, environment, pos):
         a = args.getInt("a").value
         n = args.getInt("n").value
-        return ValueInt(a << n)
+        return ValueInt((a << n) & 0xFFFFFFFF)
 
 
 class FuncBitShiftRight(ValueFunc):
